@@ -97,7 +97,7 @@ WATERSHED_OPS = ["ptm1", "ptm2", "ptm3", "ptm1_smooth", "ptm2_smooth", "ptm3_smo
 ALL_OPS = STAT_OPS + TRANSFORM_OPS + RULE_PART_OPS + WATERSHED_OPS + ["rmse_rolled"]
 # iterative least-squares fits (results compared at 1e-4: float32 outputs of an optimiser) and the dispersion helpers
 FIT_OPS = ["fit_jonswap", "fit_gaussian", "celerity", "wavelen"]
-# a statistic of two spectra: the other operand is the same labelled spectrum times 1.5 stored with the directions rolled by three bins
+# a statistic of two spectra: the other operand is a function of the labelled spectrum, stored in another order
 PAIR_OPS = ["rmse_rolled"]
 TRACK_OPS = ["ptm1_track"]      # winds are chunked like the spectra (see call)
 
@@ -142,9 +142,13 @@ def call(da, op, ds_accessor=False):
         return getattr(s, op)()
     w = wind_args(da) if op in ("ptm1", "ptm1_smooth", "ptm2", "ptm2_smooth", "ptm4") else None
     if op == "rmse_rolled":
-        other = (da * 1.5)
+        # the other operand is a function of the labels (not a shifted copy: a shift would pair up the same way in every storage
+        # order), stored with the directions rolled by three bins and the frequencies reversed
+        other = da * (1.0 + da.freq * 2.0)
         if "dir" in other.dims:
+            other = (other * (1.5 + np.cos(np.deg2rad(da.dir)) + 0.25 * np.sin(np.deg2rad(2 * da.dir)))).transpose(*da.dims)
             other = other.roll(dir=3, roll_coords=True)
+        other = other.isel(freq=slice(None, None, -1))
         return s.rmse(other)
     if op == "ptm1_track":
         # tracking needs real time stamps: three-hourly records
